@@ -1249,3 +1249,6 @@ V("C17", "xdecref-became-decref-disk", "psutil/arch/linux/disk.c",
 V("C17", "benign-decref-under-null-test", UC,
   ("    Py_XDECREF(py_tuple);\n    Py_DECREF(py_retlist);",
    "    if (py_tuple != NULL)\n        Py_DECREF(py_tuple);\n    Py_DECREF(py_retlist);"), "silent")
+V("C17", "parse-result-unchecked", PC,
+  ("    if (! PyArg_ParseTuple(\n            args, _Py_PARSE_PID \"ii\", &pid, &ioclass, &iodata)) {\n        return NULL;\n    }",
+   "    PyArg_ParseTuple(args, _Py_PARSE_PID \"ii\", &pid, &ioclass, &iodata);"), "fires:C17.R8")
